@@ -30,6 +30,13 @@ checks["C04"]=dict(level="model_checking",engine="gosim",design="4/C04",techniqu
   text="Concurrent senders in both directions over real established channels (in-process queue 0/1; TCP over 64B and 64KiB virtual pipes, optionally with injected write stalls), all kind/size workloads as data choices and every schedule within the deviation bound; the delivered multiset must equal the successfully sent one with equal content and per-(sender,kind) order.")
 checks["C13"]=dict(level="model_checking",engine="gosim",design="4/C13",technique=SCHED_TECH,
   text="An established pair is ended by client finish / server finish / server fail at every moment the bounded scheduler can choose relative to traffic in flight, over the in-process and TCP transports; terminal states, closed streams and receiver-done signals on both sides, closed connections and an empty goroutine census are required on every execution.")
+SEQX_NOTE="Trusted base: encoding/json, crypto/tls, the Go compiler, and the passive scripted connection (seqx/pconn) that stands for the network; the real tcpTransport/ctxConn code runs unmodified (build tag verif only adds a constructor). Values outside the stated alphabets/sizes are not covered."
+checks["C12"]=dict(level="fault_enumeration",engine="seqx",design="4/C12",note=SEQX_NOTE,
+  technique="bounded-exhaustive enumeration of fault plans (every split/short write/stall/cut position) over a passive scripted connection driving the real transport; sequence oracle",
+  text="Every write-side plan with up to 2 faults (short write of every length + transient timeout, stall, hard error, cancellation) and every read-side split of small envelope streams into up to 3 reads (4 in thorough), coalescing, byte-by-byte delivery, a timeout before every read and a cut at every offset is run through the real tcpTransport over a passive scripted connection (thorough: also real TLS 1.2/1.3 record streams); the received sequence must be exactly the successfully sent one, or an error.")
+checks["C16"]=dict(level="fault_enumeration",engine="seqx",design="4/C16",note=SEQX_NOTE,
+  technique="bounded-exhaustive enumeration of envelope sizes x stream positions x delivery plans over a passive scripted connection driving the real transport; byte-budget oracle",
+  text="Streams of 1-4 exactly sized envelopes (sizes around L, 2L and far above, limits 64/256/1024 and the default) under every delivery plan (per envelope, coalesced, every split into up to 3 reads, byte by byte) through the real tcpTransport: no Receive consumes more than the limit, nothing above twice the limit is returned, everything within the limit is accepted wherever it stands in the stream; plus limit propagation through the real listener/dialer on loopback.")
 na_reason={}
 m={"version":1,
  "setup_cmd":"./setup.sh",
